@@ -124,12 +124,33 @@ PENDING_REASON = "check under construction in this round: the static rules of DE
 ALL = [f"C{i:02d}" for i in range(1, 19)]
 
 
+# rules added after the first build round (DESIGN.md §9.5 rounds 3-4, §10): appended to the level text of the property
+ADDED = {
+    "C01": " Added: every parameter group gets its step (the group loop is left only by exhaustion) and owns objects created per group; hyperparameters are read from the group, never from self.defaults; the diagonal flag is exact (no tolerance parameter, callers pass the matrix only); inverse-root selection per tensor order is interpreted on concrete (override, orders, default-rule) cases.",
+    "C02": " Added: the step counter and grafting state are created per group (an object created before the per-group loop and stored by every iteration is reported).",
+    "C03": " Added: the refresh schedule predicate is evaluated region-exhaustively (C03.3); the eigendecomposition returns eigh's outputs with a device move only (C03.9); the diagonal flag is exact.",
+    "C04": " Added: the group loop of step() is left only by exhaustion; the closure call is never reachable from a gradient-blocking call; a stateful cursor (iterator consumed by next/islice) must not depend on gradient presence.",
+    "C06": " Added: communication-dtype table walked per enum member; the state allocator forwards size and dtype; stateful cursors do not depend on gradient presence.",
+    "C07": " Added: communication-dtype table, allocation forwarding and mesh-dimension roles of the HSDP distributor.",
+    "C08": " Added: communication-dtype table, allocation forwarding and mesh-dimension roles of the HybridShard distributor.",
+    "C09": " Added: the tensors the steps work on are the tensors under self.state (strict-polarity points-to: a possibly-copying conversion is reported); per-group objects are created per group; the bias-correction cache is refreshed on every call; writer and reader defaults agree; nested module state is loaded by key / index.",
+    "C10": " Added: a recurrence the term interpreter cannot follow is an unproved obligation (violation), with uninterpreted fall-backs for attribute reads and element views (an in-place update through a view clobbers the base term).",
+    "C13": " Added: the tolerance routine is simulated from each call site (caller and callee composed), so the index translation and the tolerance source are checked wherever the interface is drawn; the preconditioner config handed to the lists is the group's.",
+    "C14": " Added: layout of the state mesh (one rank per group with the owner's index; replicate ranks viewed in rows of the communication-group size); the assignment spreads over as many ranks as the gather buffer has segments.",
+    "C15": " Added: inside the recursive helper every narrow is applied to the helper's current block (offsets are block-relative).",
+    "C16": " Added: loading copies through detach(); the dispatch is read in if/elif or sequential-return form.",
+    "C17": " Added: the constructor is fed the config object as its own __post_init__ leaves it; builtin types are values of the guard interpreter and a TypeError of a concrete comparison counts as a raise.",
+}
+FRONT_END = " All rules analyse the canonical form produced by sv/canon.py (semantics-preserving rewrites, DESIGN.md §10), so that behaviour-preserving refactorings do not change the verdict."
+
+
 def main() -> None:
     checks = []
     for pid in ALL:
         if pid not in CLAIMS:
             continue
         ref, tech, text, note = CLAIMS[pid]
+        text = text + ADDED.get(pid, "") + FRONT_END
         checks.append(
             {
                 "property_id": pid,
@@ -163,7 +184,7 @@ def main() -> None:
                 "name": "sv",
                 "path": "/verif/sv",
                 "serves_properties": sorted(CLAIMS),
-                "kind_free_text": "repository-specific static analyser on CPython ast: loader/index, resolved call graph + k-CFA points-to (alias/effect), statement CFG with dominators, index-space typing, rank-variance taint, guard interpreter, dispatch tables, sibling differ, dtype-tag flow",
+                "kind_free_text": "repository-specific static analyser on CPython ast: canonicalising front-end (semantics-preserving rewrites), loader/index, resolved call graph + k-CFA points-to (alias/effect), statement CFG with dominators, index-space typing, rank-variance taint, guard interpreter, dispatch tables, sibling differ, dtype-tag flow",
             }
         ],
         "checks": checks,
